@@ -240,7 +240,8 @@ def render_dump(v):
         cm = [f"{sh(h)}/{short(i)}" for (h, i) in comm]
         pl = str(plen[1]) if plen[0] == 1 else "x"
         out += f";W{sh(w)}={tick}:{pl}:{'+'.join(ev) or '-'}:{'+'.join(cm) or '-'}"
-    for (k, pend, adm, paused, faulted) in heads:
+    for (kw, kh, pend, adm, paused, faulted) in heads:      # leftmost pairs print flattened
+        k = (kw, kh)
         out += (f";H{head_str(k)}={'+'.join(short(i) for i in pend) or '-'}:{'a' if adm == 'true' else 'd'}"
                 f"{'p' if paused == 'true' else ''}{'f' if faulted == 'true' else ''}")
     fl = []
@@ -249,7 +250,7 @@ def render_dump(v):
         st = "A" if status[0] == 0 else "R" + sh(status[1])
         fl.append(f"{gen}.{sc}.{st}.{ERR[cause]}")
     out += f";F={'+'.join(fl) or '-'}{'!' if rtf == 1 else ''}"
-    cs = sorted((f"{head_str(s[0])}/{short(s[1])}", f"@{ta}/{gt}") for (s, ta, gt) in cors)
+    cs = sorted((f"{head_str((cw, ch))}/{short(ci)}", f"@{ta}/{gt}") for (cw, ch, ci, ta, gt) in cors)
     out += f";C={'+'.join(a + b for a, b in cs) or '-'}"
     out += f";ps={ps}"
     out += f";rq={'+'.join(head_str(k) for k in rq) or '-'}"
@@ -259,8 +260,7 @@ def render_dump(v):
 def render_model(val):
     toks = []
     last = None
-    for (o, v) in val:
-        kind, a, b, recs = o
+    for (kind, a, b, recs, v) in val:
         if kind == 0:
             toks.append({0: "A", 1: "D", 2: "E:unknown-head"}[a])
         elif kind == 1:
@@ -269,7 +269,7 @@ def render_model(val):
             toks.append(first + second)
         elif kind == 2:
             if a == 0:
-                rs = "+".join(f"{head_str(r[0])}={r[1]}@{r[2]}/{r[3]}" for r in map(step_tuple, recs)) or "-"
+                rs = "+".join(f"{head_str((r[0], r[1]))}={r[2]}@{r[3]}/{r[4]}" for r in recs) or "-"
                 toks.append(f"P:ok:{rs}[{render_dump(v)}]")
             else:
                 toks.append(f"P:{ERR[a]}[{render_dump(v)}]")
@@ -282,11 +282,6 @@ def render_model(val):
         last = v
     toks.append(f"END[{render_dump(last)}]")
     return "|".join(toks)
-
-
-def step_tuple(s):
-    # {| st_head := k; st_count := n; st_tick_after := t; st_gtick := g; st_cid := c |} printed as a record
-    return s
 
 
 def parse_ids(line):
